@@ -1020,9 +1020,9 @@ theorem jsToExt_length (fl rat : ExtNum) : ∀ xs, (jsToExt fl rat xs).length = 
   | [] => rfl
   | _ :: xs => by simp [jsToExt, jsToExt_length fl rat xs]
 
-/-- flat-array mode with hexadecimal integers and hexadecimal bytes / addresses -/
+/-- flat-array mode with integers as hexadecimal or decimal strings and hexadecimal bytes / addresses -/
 def HexCfg (cfg : SerCfg) : Prop :=
-  cfg.mode = .flatArrays ∧ cfg.ints = .hex0x ∧ (cfg.bytes = .hex ∨ cfg.bytes = .hex0x) ∧
+  cfg.mode = .flatArrays ∧ (cfg.ints = .hex0x ∨ cfg.ints = .base10) ∧ (cfg.bytes = .hex ∨ cfg.bytes = .hex0x) ∧
   (cfg.addr = .none ∨ cfg.addr = .hex0x ∨ cfg.addr = .plain)
 
 /-- the table assigns each elementary type its reader -/
@@ -1084,22 +1084,26 @@ theorem leaf_readback (cfg : SerCfg) (hcfg : HexCfg cfg) (info : ElemInfo) (sfx 
     subst hv
     have hread := rInt hn
     refine ⟨serInt cfg.ints z, by simp [serElem, hn], ?_⟩
-    rw [hints]
-    have hsmall : ∀ c ∈ (if z < 0 then ['-'] else []) ++ '0' :: 'x' :: natToHex z.natAbs, c.toNat < 256 := by
-      intro c hc
-      rw [List.mem_append] at hc
-      rcases hc with hc | hc
-      · split at hc
-        · simp only [List.mem_singleton] at hc; rw [hc]; decide
-        · simp at hc
-      · simp only [List.mem_cons] at hc
-        rcases hc with h | h | h
-        · rw [h]; decide
-        · rw [h]; decide
-        · exact natToHex_small _ c h
-    simp only [serInt, jToExt, readElementary, hread, if_true, getInteger]
-    rw [charsOfBytes_ascii _ hsmall, String.toList_ofList]
-    simp [bigIntegerFromString, serInt_hex_readback z, Outcome.map]
+    rcases hints with hints | hints <;> rw [hints]
+    · have hsmall : ∀ c ∈ (if z < 0 then ['-'] else []) ++ '0' :: 'x' :: natToHex z.natAbs, c.toNat < 256 := by
+        intro c hc
+        rw [List.mem_append] at hc
+        rcases hc with hc | hc
+        · split at hc
+          · simp only [List.mem_singleton] at hc; rw [hc]; decide
+          · simp at hc
+        · simp only [List.mem_cons] at hc
+          rcases hc with h | h | h
+          · rw [h]; decide
+          · rw [h]; decide
+          · exact natToHex_small _ c h
+      simp only [serInt, jToExt, readElementary, hread, if_true, getInteger]
+      rw [charsOfBytes_ascii _ hsmall, String.toList_ofList]
+      simp [bigIntegerFromString, serInt_hex_readback z, Outcome.map]
+    · simp only [serInt, jToExt, readElementary, hread, if_true, getInteger]
+      rw [charsOfBytes_ascii _ (C19.int_toString_small z), String.toList_ofList]
+      have hdec : setString0 z.repr.toList = some z := C19.int_dec_print_parse z
+      simp [bigIntegerFromString, hdec, Outcome.map]
   rcases hok with ⟨hn, _⟩ | ⟨hn, _⟩ | ⟨hn, _, _, hm⟩ | ⟨hn, _, _, hm⟩ | ⟨hn, _⟩ | ⟨hn, _⟩ | ⟨hn, _⟩
   · -- int
     cases v with
@@ -1223,7 +1227,7 @@ theorem wellTypedEach_length : ∀ (ts : List Ty) (cs : List CV), Spec.Abi.wellT
     simp [wellTypedEach_length ts cs h.2]
 
 mutual
-  /-- **JSON output read back.** In flat-array mode with hexadecimal integers, bytes and addresses, serializing any
+  /-- **JSON output read back.** In flat-array mode with integers as hexadecimal or decimal strings and hexadecimal bytes and addresses, serializing any
       well-typed value of any valid type and walking the resulting JSON tree as input returns exactly that value —
       so encoding it again reproduces the original bytes (`encode_eq_spec` is a function of the value). -/
   theorem readback (cfg : SerCfg) (hcfg : HexCfg cfg) (fl rat : ExtNum) : (v : CV) → (t : Ty) → RT t →
@@ -1347,9 +1351,9 @@ example : ∀ u ∈ Gen.AbiTypeTable.table, u.name = "uint" → ∀ s ∈ Gen.Ab
 example : ∀ u ∈ Gen.AbiTypeTable.table, u.name = "uint" → ∀ s ∈ Gen.AbiTypeTable.table, s.name = "string" →
     RT (.tuple ["a", "b"] [.elem u "256" 256 0, .darr (.elem s "" 0 0)]) ∧
     StrOK (.kids [.int 5, .kids [.str [0x61, 0x62], .str []]]) ∧
-    HexCfg { mode := .flatArrays, ints := .hex0x, bytes := .hex0x, addr := .hex0x } := by
+    HexCfg { mode := .flatArrays, ints := .base10, bytes := .hex0x, addr := .hex0x } := by
   intro u hu hun s hs hsn
-  refine ⟨?_, ?_, ⟨rfl, rfl, Or.inr rfl, Or.inr (Or.inl rfl)⟩⟩
+  refine ⟨?_, ?_, ⟨rfl, Or.inr rfl, Or.inr rfl, Or.inr (Or.inl rfl)⟩⟩
   · simp only [RT, RTs, and_true, List.length_cons, List.length_nil, true_and]
     exact ⟨⟨uint256_ok u hu hun, table_readers u hu⟩, string_ok s hs hsn, table_readers s hs⟩
   · simp only [StrOK, StrOKs, StrLeafOK, and_true, true_and]
